@@ -11,8 +11,8 @@ CHECKS = {
          'Every program of each grammar family up to its node budget is rendered to source, run through the real pipeline and through the reference interpreter internal/refsem; value, error class, ordered print/emit log and final globals must agree. Complete within the families and budgets reported in the evidence file.',
          'Trusted: the reference interpreter (DESIGN Appendix A semantics sheet; constructs outside the sheet are not generated or are skipped as outside-sheet). Programs larger than the node budget are not covered.',
          'E1 progen+refsem', '4 C01'),
- 'C03': ('exploration', 'bounded-exhaustive enumeration of hostile inputs in crash-isolating worker processes (token sequences, single-token edits, every default callable/method x hostile argument tuples, deep nesting)',
-         'Every token sequence of <= 3 (thorough 4) tokens over a 56-token alphabet, every single-token deletion/duplication of the function/container/error/closure families, every default-global callable and every builtin-type method name applied to tuples from 22 hostile values (cyclic containers, extreme integers, NaN, invalid UTF-8, closed channel, exhausted iterator, ...), operators and interpolation on all pairs, and 17 constructs nested up to 10^3 (thorough 10^6) deep are pushed through Parse, Program.String, Compile, Eval and the error formatters inside worker children; a child that dies identifies the input in flight.',
+ 'C03': ('exploration', 'bounded-exhaustive enumeration of hostile inputs in crash-isolating worker processes (token sequences, grammar-slot templates, single-token edits, every default callable/method x hostile argument tuples, deep nesting)',
+         'Every token sequence of <= 3 (thorough 4) tokens over a 68-token alphabet (incl. template strings with blank, comment-only and unbalanced interpolations), the full product of 23 statement/expression templates x 2-17 fillers per slot (absent, doubled, wrong kind; each alone and after a prelude defining the names), every single-token deletion/duplication of the function/container/error/closure families, every default-global callable and every builtin-type method name applied to tuples from 22 hostile values (cyclic containers, extreme integers, NaN, invalid UTF-8, closed channel, exhausted iterator, ...), operators and interpolation on all pairs, and 17 constructs nested up to 10^3 (thorough 10^6) deep are pushed through Parse, Program.String, Compile, Eval and the error formatters inside worker children; a child that dies identifies the input in flight.',
          'Trusted: the worker protocol (index announced before each input). exec, network modules and exit are excluded (statement exemptions); memory exhaustion by inputs that carry an extreme size is exempt. One known finding (cyclic containers exhaust the native stack).',
          'E5 enum + E7 crashbox', '4 C03'),
  'C04': ('model_checking', 'explicit-state search over (code, ip, stack height) of the compiled bytecode of every generated program, all paths; effect table validated against every instruction the real VM executes',
@@ -28,7 +28,7 @@ CHECKS = {
          'Trusted: the go/types-based rewriter finds every range over a map (sites are listed in .work/seam-*/sites.json); dependence on memory addresses and on timing is not covered.',
          'E6 mapseam', '4 C05'),
  'C06': ('model_checking', 'stateless model checking of the implementation: controlled scheduler over the hooked goroutines, every cancellation instant x every schedule up to a deviation bound, promptness counted in VM instructions',
-         'Every combination of child prefix (go/spawn/fn.spawn, looping or blocked, nested to depth 2-3) x main shape (5 loop forms, recursion, 5 blocked operations, 7 callback-carrying builtins) x cancellation instant (every VM instruction of the main task is a scheduling point; the canceller gate opens at point k or when the system is idle) is run under internal/dsched; every schedule with at most 1 (thorough 2) deviations of canceller, watcher goroutines, children and main is enumerated. Oracle: Eval returns the context error, at most 3 instructions are dispatched by a VM whose halt flag is set, no blocked operation survives the cancel, and after Eval returned every started task ends within the drain horizon.',
+         'Every combination of child prefix (go/spawn/fn.spawn, looping or blocked, nested to depth 2-3) x main shape (5 loop forms, recursion, 5 blocked operations, 7 callback-carrying builtins) x cancellation instant (every VM instruction of the main task is a scheduling point; the canceller gate opens at point k or when the system is idle) is run under internal/dsched, on a fresh VM and - for the scenarios without children and with a looping go-child - on a reused VM (RunCode after an earlier run with the same context; Call of a function on such a VM); every schedule with at most 1 (thorough 2) deviations of canceller, watcher goroutines, children and main is enumerated. Oracle: Eval returns the context error, at most 3 instructions are dispatched by a VM whose halt flag is set, no blocked operation survives the cancel, and after Eval returned every started task ends within the drain horizon.',
          'Trusted: the verif hooks cover every blocking operation and goroutine start of the packages involved; a granted operation that was enabled only by a cancelled context and does not return within 10 s (twice) is reported as blocked forever. Real-time latency is not measured.',
          'E3 dsched', '4 C06'),
  'C07': ('model_checking', 'explicit enumeration of API histories on one VM, each explored under the controlled scheduler over all placements of stale context cancellations and watcher stores up to a deviation bound; differential oracle against a fresh VM',
@@ -39,8 +39,8 @@ CHECKS = {
          'Every Go type from 38 leaf types under 6 constructors to depth 2 (thorough 3), with zero/nil/min/max/ordinary values, crosses the boundary by 4 routes (global, field read, field write, method argument/result) in crash-isolated workers; contents must equal the normalised original, the typed round trip must be DeepEqual, or a clean error; never a panic.',
          'Trusted: the normalisation function N and the relaxations listed in DESIGN (nil vs empty, integer width under any). Types beyond depth 3, chan/func/complex are out of scope.',
          'E5 enum + E7 crashbox', '4 C08'),
- 'C11': ('model_checking', 'explicit-state graph search: GetAttr closure of every configuration (fixpoint) + every script-level access path evaluated on the real VM',
-         'For every configuration that denies or overrides any single default name (1232 configurations; thorough adds all in-module pairs, 34931) the object graph reachable from the configured globals under GetAttr is explored to a fixpoint and checked for removed objects / missing replacements; 10958 generated script access paths are evaluated per relevant configuration; sequences of configurations are checked for interference.',
+ 'C11': ('model_checking', 'explicit-state graph search: GetAttr closure of every configuration (fixpoint) + every script-level access path evaluated on the real VM; Go map iteration order owned through the map seam',
+         'For every configuration that denies or overrides any single default name (1232 configurations; thorough adds all in-module pairs, 34931) the object graph reachable from the configured globals under GetAttr is explored to a fixpoint and checked for removed objects / missing replacements; 10958 generated script access paths are evaluated per relevant configuration; sequences of configurations are checked for interference. Deny lists of several names (every name x 3 unresolvable spellings in both orders; module+member+outside name in every order; mixed lists of 3, thorough 4, names): risor applies them in Go map order, so the check is built with the map seam (cmd/mapseam overlay) and constructs each configuration once per order - base order plus every single-site deviation at every map range the construction executes (all permutations for <= 4 keys).',
          'Trusted: object identity by pointer and (Key, Go function symbol) fingerprint; values obtained by calling builtins are not followed.',
          'E4 graph search', '4 C11'),
  'C15': ('exploration', 'bounded-exhaustive enumeration of all pairs and triples over a 45-value boundary pool and all short lists as sort/set inputs, checked against the algebraic laws',
@@ -60,15 +60,15 @@ CHECKS = {
          'Trusted: the harness renderer knows the syntactic role of each gap (line breaks are only inserted after commas of list/map/set/argument lists, symbolic binary operators and pipes). Two known findings (positions at end of input).',
          'E5 enum over E1 corpus', '4 C20'),
  'C18': ('model_checking', 'explicit enumeration of all piece histories up to a depth on one compiler + one VM driven as the REPL does, against a reference session model',
-         'Every sequence of 1..4 (thorough 5) pieces over an 18-piece alphabet (definitions, uses, loop, closure, constant; rejected pieces: undefined name, constant assignment, redeclaration, rejected piece with side-effecting prefix, syntax error; failing pieces, one mid-piece) is fed to one compiler and one VM exactly as cmd/risor/repl does; per-piece status, value and output and the final globals must equal the reference session model (rejected pieces have no effect, failed pieces keep their effects up to the failure); a 1200-input session must not exhaust the VM.',
+         'Every sequence of 1..4 (thorough 5) pieces over an 18-piece alphabet (definitions, uses, loop, closure, constant; rejected pieces: undefined name, constant assignment, redeclaration, rejected piece with side-effecting prefix, rejected pieces that shadow an earlier global inside a block, syntax error; failing pieces, one mid-piece) is fed to one compiler and one VM exactly as cmd/risor/repl does; per-piece status, value and output and the final globals must equal the reference session model (rejected pieces have no effect, failed pieces keep their effects up to the failure); a 1200-input session must not exhaust the VM.',
          'Trusted: the session model in internal/refsem (Session). The value of a piece that ends in a named function definition is not compared.',
          'E4 histbfs + E1 refsem', '4 C18'),
  'C19': ('exploration', 'bounded-exhaustive enumeration of argument tuples over boundary pools for every discovered wrapper function, compared with the direct Go call; codec round trips and all short malformed inputs',
-         'Every function/method of strings, strconv, math, bytes, base64, filepath, regexp, json, string and byte_slice methods (discovered from the live modules; an unknown function is an engine error) is called with every argument tuple over its pools through the object API and through scripts and compared with the Go standard library; every codec round-trips every pool value and rejects exactly the malformed inputs (all strings <= 4 over a 6-symbol alphabet) that Go rejects; json codec and json module must agree.',
+         'Every function/method of strings, strconv, math, bytes, base64, filepath, regexp, json, string and byte_slice methods (discovered from the live modules; an unknown function is an engine error) is called with every argument tuple over its pools through the object API and through scripts and compared with the Go standard library; every codec round-trips every pool value and rejects exactly the malformed inputs (all strings <= 4 over a 6-symbol alphabet) that Go rejects; json codec and json module must agree; every ordered pair of encodes (and decodes) per codec must leave the first result unchanged and both must still round-trip (independence of results).',
          'Trusted: the table of Go closures in internal/c19/table.go. Four known findings (json codec vs module on byte_slice and nil; invalid UTF-8 through encoding/json).',
          'E5 enum', '4 C19'),
  'C09': ('model_checking', 'stateless model checking of the implementation: 2-3 concurrent evaluations under the controlled scheduler, every schedule of the lock/access hook points up to a preemption bound, vector-clock happens-before race detection',
-         'Thirteen scenarios of 2-3 concurrent risor.Eval calls on separate VMs that meet on one piece of package-level or shared state (Go type registries through globals, field access and proxy method calls; the codec registry incl. registration; a shared importer; one compiled code object on two VMs; two clones of one VM). Package caches are reset before every execution; every schedule with at most 2 (thorough 3) preemptions is explored; a vector-clock detector reports conflicting hooked accesses that are not ordered by locks/spawn/join, and every result must equal the sequential result. Thorough adds a free-running -race build of the same bodies.',
+         'Scenarios of 2-3 concurrent risor.Eval calls on separate VMs (distinct receivers and arguments per evaluation, so that shared scratch state shows in the results) that meet on one piece of package-level or shared state (Go type registries through globals, field access and proxy method calls; the codec registry incl. registration; a shared importer; one compiled code object on two VMs; two clones of one VM). Package caches are reset before every execution; every schedule with at most 2 (thorough 3) preemptions is explored; a vector-clock detector reports conflicting hooked accesses that are not ordered by locks/spawn/join, and every result must equal the sequential result. Thorough adds a free-running -race build of the same bodies.',
          'Trusted: the access hooks name every package-level map and cache of the anchored files (typeConverters, goTypeRegistry, GoType.converter, codecs, importer code caches); accesses the hooks do not name are only covered by the -race supplement.',
          'E3 dsched', '4 C09'),
  'C10': ('model_checking', 'stateless model checking of the implementation: controlled scheduler over the hooked goroutines, DFS over all schedules up to a preemption bound, happens-before race detection on hooked accesses',
@@ -80,7 +80,7 @@ CHECKS = {
          'Trusted: the reference model of module state in internal/c14; import cycles are not generated.',
          'E4 histbfs + E5 enum', '4 C14'),
  'C12': ('exploration', 'bounded-exhaustive enumeration of every OS-touching function/method (discovered from the live modules) x argument tuples x execution contexts x ways of supplying the OS, against a recording OS; real-process effects checked after every case',
-         'Every function of the os, filepath and fmt modules, the OS-touching builtins and every file-object method (80 discovered names; an unknown name is an engine error) x 168 argument tuples whose paths and variable names carry a marker x 12 execution contexts (thorough 252: spawn, go, clone, imported module, callbacks, risor.Call, composed chains) x OS supplied by option / context / both. Oracle: the recording OS logged exactly the expected calls and the script saw its answers; cwd, environment, temp dir, / and real stdio of the worker are untouched; a static scan of the anchored files finds no direct os/syscall use; thorough: no syscall argument under strace carries the marker.',
+         'Every function of the os, filepath and fmt modules, the OS-touching builtins and every file-object method (80 discovered names; an unknown name is an engine error) x 168 argument tuples whose paths and variable names carry a marker x 12 execution contexts (thorough 252: spawn, go, clone, imported module, callbacks, risor.Call, composed chains) x OS supplied by option / context / both; plus 81 reused-VM contexts (OS of the first run x where the second run's OS comes from x entry form RunCode/Eval/Call on the same VM and context). Oracle: the recording OS logged exactly the expected calls and the script saw its answers; cwd, environment, temp dir, / and real stdio of the worker are untouched; a static scan of the anchored files finds no direct os/syscall use; thorough: no syscall argument under strace carries the marker.',
          'Trusted: the call templates (expected OS-call logs) in internal/c12/cases.go. exec, network modules and the importer\'s own file reads are exempt by the statement; os.exit(non-zero) inside go-statement contexts is excluded (it would block the harness).',
          'E5 enum + E7 crashbox', '4 C12'),
  'C13': ('exploration', 'bounded-exhaustive enumeration of path strings x operations x layouts against a component-wise containment oracle',
